@@ -25,6 +25,22 @@ class ParamV(SymVal):
     def sym_type(self, it): return TypeOf(self)
     def sym_truth(self, it): return True
     def sym_is(self, it, o): return self is o
+    def sym_getattr(self, it, name):
+        # coordinates: (index, subscript) WITHOUT the type -- Constant(i, s) and Variable(i, s) have the same spec
+        if name == 'spec': return (IDX(self.key), SUB(self.key))
+        if name == 'index': return IDX(self.key)
+        if name == 'subscript': return SUB(self.key)
+        raise Outside(f'ParamV.{name}')
+
+IDX = z3.Function('param_index', z3.IntSort(), z3.IntSort())
+SUB = z3.Function('param_subscript', z3.IntSort(), z3.IntSort())
+
+def param_axioms(params):
+    "items are equal iff they have the same type and the same coordinates (C14); the key determines the type"
+    out = []
+    for a, b in itertools.combinations(params, 2):
+        out.append((a.key == b.key) == z3.And(a.is_const == b.is_const, IDX(a.key) == IDX(b.key), SUB(a.key) == SUB(b.key)))
+    return out
 
 class TypeOf(SymVal):
     def __init__(self, p): self.p = p
